@@ -16,10 +16,20 @@ GROUPS += [
  dict(_DW, name='wrap_opus_decode_float', entry='h_opus_decode_float', functions=['opus_decode_float'], what='opus_decode_float: passes straight through'),
 ]
 META = {}
-GROUPS.append(dict(name='decode_frame_fs8000', tier='thorough', cls='F', tu='C01_decode_frame.c', entry='h_decode_frame', dfcc=False, canary='real', expect_canaries=3,
+GROUPS.append(dict(name='decode_frame_fs8000', tier='off', cls='F', tu='C01_decode_frame.c', entry='h_decode_frame', dfcc=False, canary='real', expect_canaries=3,
     defines=['-DVERIF_FS=8000', '-U__SSE__'], unwind=14, unwind_src=[(r'i<audiosize\*st->channels', 1924), (r'i<frame_size\*st->channels', 964), (r'i<st->channels\*F2_5', 42), (r'i<F2_5|i<overlap', 22)], timeout=7200, mem_gb=24,
     cbmc_flags=['--object-bits', '10', '--slice-formula'],
     functions=['opus_decode_frame', 'smooth_fade', 'ec_dec_init', 'ec_dec_bit_logp', 'ec_dec_uint', 'ec_tell'],
     trusted=['ASSUMED frame contracts (stubs) of silk_Decode, celt_decode_with_ec(_dred), opus_custom_decoder_ctl, silk_ResetDecoder: result ranges and write extents only; each asserts the validity of the buffers it receives'],
     bounds='Fs = 8000 (all frame durations 2.5-120 ms), payload of <= 6 symbolic bytes, decoder gain 0; recursion depth <= 8',
     what='opus_decode_frame glue: result range, exact duration of a real frame, concealment succeeds with a multiple of 2.5 ms, buffers handed to SILK/CELT are large enough, redundancy offsets inside the packet, no internal abort'))
+
+for (_mf, _tier) in ((4, 'quick'), (8, 'thorough')):
+    GROUPS.append(dict(name='decode_frame_fs8000_le%dms' % (_mf * 5 // 2), tier=_tier, cls='B', tu='C01_decode_frame.c', entry='h_decode_frame', dfcc=False, canary='real', expect_canaries=3,
+        defines=['-DVERIF_FS=8000', '-U__SSE__', '-DVERIF_MAXF=%d' % _mf], unwind=14,
+        unwind_src=[(r'i<audiosize\*st->channels', 40 * _mf + 4), (r'i<frame_size\*st->channels', 40 * _mf + 4), (r'i<st->channels\*F2_5', 42), (r'i<F2_5|i<overlap', 22)], timeout=3600, mem_gb=20,
+        cbmc_flags=['--object-bits', '10', '--slice-formula'],
+        functions=['opus_decode_frame', 'smooth_fade', 'ec_dec_init', 'ec_dec_bit_logp', 'ec_dec_uint', 'ec_tell'],
+        trusted=['ASSUMED frame contracts (stubs) of silk_Decode, celt_decode_with_ec(_dred), opus_custom_decoder_ctl, silk_ResetDecoder: result ranges and write extents only; each asserts the validity of the buffers it receives'],
+        bounds='Fs = 8000, TOC duration and output buffer <= %d x 2.5 ms, payload of <= 6 symbolic bytes, decoder gain 0; recursion depth <= 8' % _mf,
+        what='opus_decode_frame glue (frames up to %g ms): result range, exact duration of a real frame, concealment succeeds with a multiple of 2.5 ms, buffers handed to SILK/CELT are large enough, redundancy offsets inside the packet, no internal abort' % (_mf * 2.5)))
